@@ -81,6 +81,16 @@ CHECKS = {
          "Every accepted EmbSpace program (<=1 / <=2 deviations), the 31 testdata files, an import family with same-named types and enums in two modules, and a module with constants beyond 64 bits: from_json(to_json(ir)) equals ir under a structural comparer (set/unset status, Python type, list length, source-location flags; not Message.__eq__), to_json is idempotent, generate_header of the re-read IR is byte-identical, and for a subset embossc equals emboss_front_end | emboss_codegen_cpp run as separate processes. Reports node-kind x field coverage (all 120 IR fields set at least once).",
          "Trusted: the comparer in checks/c18.py. Subprocess equivalence on 8 (quick) / 40+ (thorough) programs only.",
          "DESIGN.md section 3, C18"),
+ "C16": ("fault_enumeration",
+         "systematic single-fault enumeration: every token-level deletion, duplication, replacement and insertion at every token position of every base program, all truncations, all line-terminator substitutions, all short raw strings, plus catalogues; each run through the real front and back end",
+         "For 48 (quick) / all (thorough) EmbSpace programs and corpus files: at every token position delete, duplicate, replace by and insert each of 43 alphabet tokens; truncate at every token boundary and every character of the last line; re-indent every line 5 ways; substitute each of 8 line terminators with an error on the last line; all strings of length <=3 over a 22-character alphabet (NUL, BOM, multi-byte UTF-8, control characters); 100+ catalogued odd programs incl. multi-module ones; CLI runs of embossc and emboss-format. No exception may escape; the result is (IR and header) xor non-empty error groups whose messages name a given file, a position inside it (never 0:0, never synthetic), render with and without colour and quote the right source line; 10 s CPU watchdog.",
+         "Trusted: the oracle in checks/c16.py; the real tokenizer only locates token boundaries of valid bases. Double faults are thorough-tier only for the shortest bases. Six open findings (crashes and 0:0 locations) are listed in known_findings.json.",
+         "DESIGN.md section 3, C16"),
+ "C17": ("model_checking",
+         "explicit-state exploration of the process-wide mutable state: all operation histories up to a length bound executed in forks of a pristine process and compared with fresh-process results; fresh CLI processes across a PYTHONHASHSEED alphabet",
+         "All histories of length <=3 (quick) / <=4 (thorough) over 10 operations (compile / JSON-split compile / format over six source sets incl. anonymous bits, imports, syntax errors, multi-error modules, identical text under another name, back-end attribute errors), each in a fork of a process that has imported the compiler and compiled nothing: every step's IR JSON, header and rendered diagnostics equal the fresh-process result up to renumbering of reserved anonymous identifiers; canonical process states (module cache keys, anonymous counter, reserved-word table) are recorded. embossc and emboss-format as fresh processes under 8/32 hash seeds (offset by VERIF_SEED) on eight source sets: identical exit status, stdout, stderr and header; identical output for every order and multiplicity of import directories holding identical copies.",
+         "PYTHONHASHSEED is a bounded alphabet of a 2^32 space. Outputs compared up to anonymous-identifier numbering.",
+         "DESIGN.md section 3, C17"),
 }
 NOT_YET = "check not built yet in this round (planned in DESIGN.md section 3); no claim made"
 
